@@ -411,4 +411,279 @@ example : (∀ c ∈ "it`s \"x\" -- /* 表".toList, (c ≠ '\'' ∧ c ≠ '\\') 
     lexesTo (lex Gen.cfgS "'it`s \"x\" -- /* 表'".toList) [.single "'it`s \"x\" -- /* 表'".toList 10] = true ∧
     lexesTo (lex Gen.cfgS "`a b`".toList) [.single "`a b`".toList 2] = true := by decide +kernel
 
+/-! ### comments -/
+
+/-- `closesFrom star p`: reading `p` inside a block comment (`star`: the previous body character was a `*`) meets the
+terminator `*/` -/
+def closesFrom : Bool → List Char → Bool
+  | _, [] => false
+  | star, c :: r => (star && c == '/') || closesFrom (c == '*') r
+/-- the comment body `p` contains `*/` -/
+def hasBlockEnd (p : List Char) : Bool := closesFrom false p
+
+def blkSt (star : Bool) : S := if star then .IN_EXPLAIN_2_AFTER_2A else .IN_EXPLAIN_2
+
+theorem blk_step (star : Bool) (c : Char) (h : (star && c == '/') = false) :
+    Gen.cfgS.lookup (blkSt star) (.ch c) = some (addTo (blkSt (c == '*'))) := by
+  by_cases hs : c = '*'
+  · subst hs
+    cases star
+    · exact look (by decide +kernel)
+    · exact look (by decide +kernel)
+  · have hs' : (c == '*') = false := by simpa using hs
+    rw [hs']
+    cases star with
+    | false =>
+      exact lookClass .IN_EXPLAIN_2 (fun n => !(n =ᶜ '*')) _ (by decide +kernel) (Or.inl (by decide +kernel)) c
+        (by simp [ne_of_isCh hs])
+    | true =>
+      have hn : c ≠ '/' := by simpa using h
+      exact lookClass .IN_EXPLAIN_2_AFTER_2A (fun n => !(n =ᶜ '*') && !(n =ᶜ '/')) _ (by decide +kernel)
+        (Or.inl (by decide +kernel)) c (by simp [ne_of_isCh hs, ne_of_isCh hn])
+
+theorem blk_run (text p : List Char) (star : Bool) (h : closesFrom star p = false) (st nw : Nat) (stk : List (List Tok)) :
+    ∃ star', feedAllWith (handle Gen.cfgS text) p ⟨st, nw, blkSt star, stk⟩ = .ok ⟨st, nw + p.length, blkSt star', stk⟩ := by
+  induction p generalizing star nw with
+  | nil => exact ⟨star, rfl⟩
+  | cons c cs ih =>
+    simp only [closesFrom, Bool.or_eq_false_iff] at h
+    have h1 := handle_addTo shipped_code (text := text) (m := ⟨st, nw, blkSt star, stk⟩) (blk_step star c h.1)
+    obtain ⟨star', hrun⟩ := ih (c == '*') h.2 (nw + 1)
+    refine ⟨star', ?_⟩
+    simp only [feedAllWith, feedWith_adv h1, hrun, List.length_cons]
+    congr 2; omega
+
+/-- **C05.block_comment_unterminated**: `/*` followed by any text without `*/` is rejected. -/
+theorem block_comment_unterminated (p : List Char) (h : hasBlockEnd p = false) (hpl : ∀ c ∈ p, plain c = true) :
+    lex Gen.cfgS ('/' :: '*' :: p) = .error .lexical := by
+  have hp : ∀ c ∈ '/' :: '*' :: p, plain c = true := by
+    intro c hc
+    rcases List.mem_cons.mp hc with rfl | hc
+    · decide
+    · rcases List.mem_cons.mp hc with rfl | hc
+      · decide
+      · exact hpl c hc
+  rw [lex_plain _ _ hp]
+  have h1 := handle_addTo shipped_code (text := '/' :: '*' :: p) (m := ({} : Mem)) (q := .AFTER_2F) (sym := .ch '/')
+    (look (by decide +kernel))
+  have h2 := handle_addTo shipped_code (text := '/' :: '*' :: p) (m := ⟨0, 1, .AFTER_2F, [[]]⟩) (q := .IN_EXPLAIN_2)
+    (sym := .ch '*') (look (by decide +kernel))
+  obtain ⟨star', hrun⟩ := blk_run ('/' :: '*' :: p) p false h 0 2 [[]]
+  have hfeed : feedAllWith (handle Gen.cfgS ('/' :: '*' :: p)) ('/' :: '*' :: p) {} = .ok ⟨0, 2 + p.length, blkSt star', [[]]⟩ := by
+    rw [feedAllWith_cons_adv h1, feedAllWith_cons_adv h2]
+    exact hrun
+  have he : Gen.cfgS.lookup (blkSt star') .eof = some reject := by
+    cases star' <;> exact lookEnd (by decide +kernel)
+  exact lexText_err_eof hfeed (handle_reject shipped_code (m := ⟨0, 2 + p.length, blkSt star', [[]]⟩) he)
+
+/-- non-vacuity: a body with stars and slashes but no terminator; and with the terminator the comment is removed -/
+example : hasBlockEnd "* a / ** b".toList = false ∧ hasBlockEnd "a */".toList = true ∧
+    lexesTo (lex Gen.cfgS "/*** a / ** b **/ x".toList) [.single ['x'] 2] = true := by decide +kernel
+
+/-- the shape of a line comment under any table with the generated micro-code: `opener` leads into the comment state,
+every character but the line break is body; at the line break the comment is complete and `onBreak` happens -/
+theorem line_comment_shape (cfg : Cfg Gen.Cls) (hc : cfg.code = Gen.Cls.code) (hd : cfg.depthLimit = 1)
+    (he : cfg.endStatus = .END) (opener p : List Char)
+    (hopen : ∀ text, feedAllWith (handle cfg text) opener {} = .ok ⟨0, opener.length, .IN_EXPLAIN_1, [[]]⟩)
+    (hbody : ∀ c : Char, c ≠ '\n' → cfg.lookup .IN_EXPLAIN_1 (.ch c) = some (addTo .IN_EXPLAIN_1))
+    (hskip : cfg.lookup .WAIT (.ch '\n') = some skip) (hfin : cfg.lookup .WAIT .eof = some Spec.finish)
+    (hp : ∀ c ∈ p, c ≠ '\n') :
+    (cfg.lookup .IN_EXPLAIN_1 (.ch '\n') = some dropBefore → lexText cfg (opener ++ p ++ ['\n']) = .ok []) ∧
+    (cfg.lookup .IN_EXPLAIN_1 (.ch '\n') = some (emitBefore mComment) →
+      lexText cfg (opener ++ p ++ ['\n']) = .ok [.single (opener ++ p) Gen.mark_COMMENT]) := by
+  have hrun : ∀ text, feedAllWith (handle cfg text) (opener ++ p) {} =
+      .ok ⟨0, opener.length + p.length, .IN_EXPLAIN_1, [[]]⟩ := fun text => by
+    rw [feedAllWith_append_ok (hopen text)]
+    exact feedAll_loop hc (fun c => c ≠ '\n') hbody p hp 0 opener.length [[]]
+  constructor
+  · intro hnl
+    have h1 := handle_dropBefore hc (text := opener ++ p ++ ['\n']) (m := ⟨0, opener.length + p.length, .IN_EXPLAIN_1, [[]]⟩) hnl
+    have h2 := handle_skip hc (text := opener ++ p ++ ['\n'])
+      (m := ⟨opener.length + p.length, opener.length + p.length, .WAIT, [[]]⟩) (sym := .ch '\n') hskip
+    have hfeed : feedAllWith (handle cfg (opener ++ p ++ ['\n'])) (opener ++ p ++ ['\n']) {} =
+        .ok ⟨opener.length + p.length + 1, opener.length + p.length + 1, .WAIT, [[]]⟩ := by
+      rw [feedAllWith_append_ok (hrun _), feedAllWith_one, feedWith_retry h1, h2]
+    rw [lexText_ok hfeed (handle_finish hc (m := ⟨_, _, .WAIT, _⟩) hfin)]
+    exact finish_end _ hd he _ _ _
+  · intro hnl
+    have h1 := handle_emitBefore hc (text := opener ++ p ++ ['\n']) (m := ⟨0, opener.length + p.length, .IN_EXPLAIN_1, [[]]⟩)
+      hnl rfl
+    have h2 := handle_skip hc (text := opener ++ p ++ ['\n'])
+      (m := ⟨opener.length + p.length, opener.length + p.length, .WAIT,
+        [[] ++ [.single (win (opener ++ p ++ ['\n']) ⟨0, opener.length + p.length, .IN_EXPLAIN_1, [[]]⟩ (opener.length + p.length)) mComment]]⟩)
+      (sym := .ch '\n') hskip
+    have hw : win (opener ++ p ++ ['\n']) ⟨0, opener.length + p.length, .IN_EXPLAIN_1, [[]]⟩ (opener.length + p.length) = opener ++ p := by
+      have := win_init (opener ++ p) ['\n'] (opener.length + p.length) .IN_EXPLAIN_1 [[]]
+      simpa using this
+    have hfeed : feedAllWith (handle cfg (opener ++ p ++ ['\n'])) (opener ++ p ++ ['\n']) {} =
+        .ok ⟨opener.length + p.length + 1, opener.length + p.length + 1, .WAIT, [[.single (opener ++ p) mComment]]⟩ := by
+      rw [feedAllWith_append_ok (hrun _), feedAllWith_one, feedWith_retry h1, h2, hw]
+      rfl
+    rw [lexText_ok hfeed (handle_finish hc (m := ⟨_, _, .WAIT, _⟩) hfin)]
+    exact finish_end _ hd he _ _ _
+
+/-- the configuration that ignores blanks and line breaks but RETAINS comments -/
+abbrev cfgKeep : Cfg Gen.Cls := Gen.Cfg6.cfg
+
+theorem look6 {s : S} {c : Char} {o : Op} (h : cellD 6 s c.toNat = some o) : cfgKeep.lookup s (.ch c) = some o :=
+  (agree_cfg6 s (.ch c)).trans h
+
+theorem open_dashes (cfg : Cfg Gen.Cls) (hc : cfg.code = Gen.Cls.code)
+    (h1 : cfg.lookup .WAIT (.ch '-') = some (addTo .AFTER_2D)) (h2 : cfg.lookup .AFTER_2D (.ch '-') = some (addTo .IN_EXPLAIN_1))
+    (text : List Char) : feedAllWith (handle cfg text) ['-', '-'] {} = .ok ⟨0, ['-', '-'].length, .IN_EXPLAIN_1, [[]]⟩ := by
+  have e1 := handle_addTo hc (text := text) (m := ({} : Mem)) h1
+  have e2 := handle_addTo hc (text := text) (m := ⟨0, 1, .AFTER_2D, [[]]⟩) h2
+  rw [feedAllWith_cons_adv e1, feedAllWith_cons_adv e2]; rfl
+
+theorem open_hash (cfg : Cfg Gen.Cls) (hc : cfg.code = Gen.Cls.code)
+    (h1 : cfg.lookup .WAIT (.ch '#') = some (addTo .IN_EXPLAIN_1))
+    (text : List Char) : feedAllWith (handle cfg text) ['#'] {} = .ok ⟨0, ['#'].length, .IN_EXPLAIN_1, [[]]⟩ := by
+  have e1 := handle_addTo hc (text := text) (m := ({} : Mem)) h1
+  rw [feedAllWith_cons_adv e1]; rfl
+
+theorem plain_wrap (a p b : List Char) (ha : ∀ c ∈ a, plain c = true) (hp : ∀ c ∈ p, plain c = true)
+    (hb : ∀ c ∈ b, plain c = true) : ∀ c ∈ a ++ p ++ b, plain c = true := by
+  intro c hc
+  rcases List.mem_append.mp hc with h | h
+  · rcases List.mem_append.mp h with h | h
+    · exact ha c h
+    · exact hp c h
+  · exact hb c h
+
+/-- **C05.line_comment**: for every `p` without a line break, `--p⏎` and `#p⏎` (so in particular `-- p⏎`) produce no
+token under the shipped configuration (comments removed) and exactly one COMMENT token, whose source is the comment
+without the line break, under the configuration that retains comments. -/
+theorem line_comment (p : List Char) (hp : ∀ c ∈ p, c ≠ '\n') (hpl : ∀ c ∈ p, plain c = true) :
+    lex Gen.cfgS ("--".toList ++ p ++ ['\n']) = .ok [] ∧ lex Gen.cfgS ("#".toList ++ p ++ ['\n']) = .ok [] ∧
+    lex cfgKeep ("--".toList ++ p ++ ['\n']) = .ok [.single ("--".toList ++ p) Gen.mark_COMMENT] ∧
+    lex cfgKeep ("#".toList ++ p ++ ['\n']) = .ok [.single ("#".toList ++ p) Gen.mark_COMMENT] := by
+  have hd : ∀ c ∈ "--".toList, plain c = true := by decide
+  have hh : ∀ c ∈ "#".toList, plain c = true := by decide
+  have hn : ∀ c ∈ ['\n'], plain c = true := by decide
+  have body7 : ∀ c : Char, c ≠ '\n' → Gen.cfgS.lookup .IN_EXPLAIN_1 (.ch c) = some (addTo .IN_EXPLAIN_1) :=
+    fun c hc => lookClass .IN_EXPLAIN_1 (fun n => !(n =ᶜ '\n')) _ (by decide +kernel) (Or.inl (by decide +kernel)) c
+      (by simp [ne_of_isCh hc])
+  have body6 : ∀ c : Char, c ≠ '\n' → cfgKeep.lookup .IN_EXPLAIN_1 (.ch c) = some (addTo .IN_EXPLAIN_1) :=
+    fun c hc => look6 (cellD_class 6 .IN_EXPLAIN_1 (fun n => !(n =ᶜ '\n')) _ (by decide +kernel)
+      (Or.inl (by decide +kernel)) c.toNat (by simp [ne_of_isCh hc]))
+  have fin6 : cfgKeep.lookup .WAIT .eof = some Spec.finish := (agree_cfg6 .WAIT .eof).trans (by decide +kernel)
+  refine ⟨?_, ?_, ?_, ?_⟩
+  · rw [lex_plain _ _ (plain_wrap _ p _ hd hpl hn)]
+    exact (line_comment_shape Gen.cfgS shipped_code shipped_depth shipped_end "--".toList p
+      (open_dashes _ shipped_code (look (by decide +kernel)) (look (by decide +kernel))) body7 wait_newline wait_end hp).1
+      (look (by decide +kernel))
+  · rw [lex_plain _ _ (plain_wrap _ p _ hh hpl hn)]
+    exact (line_comment_shape Gen.cfgS shipped_code shipped_depth shipped_end "#".toList p
+      (open_hash _ shipped_code (look (by decide +kernel))) body7 wait_newline wait_end hp).1 (look (by decide +kernel))
+  · rw [lex_plain _ _ (plain_wrap _ p _ hd hpl hn)]
+    exact (line_comment_shape cfgKeep rfl rfl rfl "--".toList p
+      (open_dashes _ rfl (look6 (by decide +kernel)) (look6 (by decide +kernel))) body6 (look6 (by decide +kernel)) fin6 hp).2
+      (look6 (by decide +kernel))
+  · rw [lex_plain _ _ (plain_wrap _ p _ hh hpl hn)]
+    exact (line_comment_shape cfgKeep rfl rfl rfl "#".toList p
+      (open_hash _ rfl (look6 (by decide +kernel))) body6 (look6 (by decide +kernel)) fin6 hp).2 (look6 (by decide +kernel))
+
+example : lexesTo (lex Gen.cfgS "-- a 'b /* c\n".toList) [] = true ∧
+    lexesTo (lex cfgKeep "# a 'b\n".toList) [.single "# a 'b".toList 256] = true := by decide +kernel
+
+/-! ### operators and punctuation -/
+
+/-- the multi-character operators and the single-character operators / punctuation of the property -/
+def operatorList : List String :=
+  ["<=>", "<=", ">=", "<>", "!=", "<<", ">>", "&&", "||",
+   "=", "<", ">", "+", "-", "*", "/", "%", "^", "&", "|", "~", "!", ",", ";", "."]
+
+/-- **C05.operators**: each operator, written between two words WITHOUT separators, lexes to exactly: word, that one
+operator token (no class marks), word — in particular no multi-character operator is split (maximal munch: `<=>` is
+one token, not `<=` `>` or `<` `=>`), and no word swallows an operator character. -/
+theorem operators : (operatorList.all fun o =>
+    lexesTo (lex Gen.cfgS ("ab".toList ++ o.toList ++ "cd".toList))
+      [.single "ab".toList Gen.mark_NAME, .single o.toList Gen.mark_NONE, .single "cd".toList Gen.mark_NAME]) = true := by
+  decide +kernel
+
+/-- … and likewise at the very end of the text (an operator may be the last token) and between numbers -/
+theorem operators_at_end : (operatorList.all fun o =>
+    lexesTo (lex Gen.cfgS ("1".toList ++ o.toList)) [.single "1".toList 72, .single o.toList Gen.mark_NONE] &&
+    lexesTo (lex Gen.cfgS ("1".toList ++ o.toList ++ "2".toList))
+      [.single "1".toList 72, .single o.toList Gen.mark_NONE, .single "2".toList 72] || o == ".") = true := by
+  decide +kernel
+
+/-- the excluded case of `operators_at_end`: a point after an integer continues a decimal literal (`1.` and `1.2` are
+one LITERAL_FLOAT token each: the property lists decimal literals in all spellings) -/
+example : lexesTo (lex Gen.cfgS "1.".toList) [.single "1.".toList 136] = true ∧
+    lexesTo (lex Gen.cfgS "1.2".toList) [.single "1.2".toList 136] = true := by decide +kernel
+
+/-- maximal munch continues after the longest operator: `<=>>` is `<=>` `>`, `<<<` is `<<` `<`, `|||` is `||` `|` -/
+example : lexesTo (lex Gen.cfgS "a<=>>b".toList) [.single ['a'] 2, .single "<=>".toList 0, .single ">".toList 0, .single ['b'] 2] = true ∧
+    lexesTo (lex Gen.cfgS "a<<<b".toList) [.single ['a'] 2, .single "<<".toList 0, .single "<".toList 0, .single ['b'] 2] = true ∧
+    lexesTo (lex Gen.cfgS "a|||b".toList) [.single ['a'] 2, .single "||".toList 0, .single "|".toList 0, .single ['b'] 2] = true := by
+  decide +kernel
+
+/-! ### TRUE / FALSE / NULL in any letter case -/
+
+/-- all letter-case variants of a word -/
+def caseVariants : List Char → List (List Char)
+  | [] => [[]]
+  | c :: r => (caseVariants r).flatMap fun v => [c.toLower :: v, c.toUpper :: v]
+
+/-- **C05.literal_words**: every letter-case variant of TRUE (2⁴), FALSE (2⁵), NULL (2⁴) lexes to exactly one token
+carrying the LITERAL mark (and not NAME). -/
+theorem literal_words : (["TRUE", "FALSE", "NULL"].all fun w =>
+    (caseVariants w.toList).all fun v => lexesTo (lex Gen.cfgS v) [.single v Gen.mark_LITERAL]) = true := by
+  decide +kernel
+
+example : (caseVariants "TRUE".toList).length = 16 ∧ (caseVariants "FALSE".toList).length = 32 ∧
+    "tRuE".toList ∈ caseVariants "TRUE".toList ∧ "null".toList ∈ caseVariants "NULL".toList := by decide +kernel
+
+/-- … via the general theorem: they are words, so `word_token` applies and the marks are the keyword table's -/
+example : isWord "nUlL".toList = true ∧ wordMark "nUlL".toList = Gen.mark_LITERAL ∧ wordMark "nul".toList = Gen.mark_NAME := by
+  decide +kernel
+
+/-! ### unbalanced brackets -/
+
+theorem plain_of_word_paren : plain '(' = true ∧ plain ')' = true := by decide
+
+/-- **C05.unbalanced_rejected**: for every word `w`, the texts `(w` (bracket never closed) and `w)` (bracket never
+opened) are rejected. -/
+theorem unbalanced_rejected (w : List Char) (hw : isWord w = true) (hp : ∀ c ∈ w, plain c = true) :
+    lex Gen.cfgS ('(' :: w) = .error .lexical ∧ lex Gen.cfgS (w ++ [')']) = .error .lexical := by
+  constructor
+  · have hpl : ∀ c ∈ '(' :: w, plain c = true := by
+      intro c hc
+      rcases List.mem_cons.mp hc with rfl | h
+      · decide
+      · exact hp c h
+    rw [lex_plain _ _ hpl]
+    have hopen : Gen.cfgS.lookup .WAIT (.ch '(') = some openParen := look (by decide +kernel)
+    have h1 := handle_openParen shipped_code (text := '(' :: w) (m := ({} : Mem)) hopen
+    have hfeed : feedAllWith (handle Gen.cfgS ('(' :: w)) ('(' :: w) {} = .ok ⟨1, 1 + w.length, .IN_WORD, [[], []]⟩ := by
+      rw [feedAllWith_cons_adv h1]
+      exact word_run _ w hw 1 [[], []]
+    have he : Gen.cfgS.lookup .IN_WORD .eof = some emitWordAtEnd := lookEnd (by decide +kernel)
+    rw [lexText_ok hfeed (handle_emitWordAtEnd shipped_code (m := ⟨1, 1 + w.length, .IN_WORD, [[], []]⟩) he rfl)]
+    exact finish_open _ shipped_depth shipped_end _ _ _ _ _
+  · have hpl : ∀ c ∈ w ++ [')'], plain c = true := by
+      intro c hc
+      rcases List.mem_append.mp hc with h | h
+      · exact hp c h
+      · have : c = ')' := by simpa using h
+        subst this; decide
+    rw [lex_plain _ _ hpl]
+    have hstop := word_stop ')' (by decide +kernel)
+    have h1 := handle_emitWordBefore shipped_code (text := w ++ [')']) (m := ⟨0, 0 + w.length, .IN_WORD, [[]]⟩) hstop rfl
+    have hclose : Gen.cfgS.lookup .WAIT (.ch ')') = some closeParen := look (by decide +kernel)
+    have h2 := handle_closeParen_top shipped_code (text := w ++ [')'])
+      (m := ⟨0 + w.length, 0 + w.length, .WAIT,
+        [[] ++ [.single (win (w ++ [')']) ⟨0, 0 + w.length, .IN_WORD, [[]]⟩ (0 + w.length))
+          (resolveMarks Gen.cfgS.upper Gen.cfgS.wordMarks 0 (win (w ++ [')']) ⟨0, 0 + w.length, .IN_WORD, [[]]⟩ (0 + w.length)) (.word 2))]]⟩)
+      (sym := .ch ')') hclose rfl
+    apply lexText_err_feed
+    rw [feedAllWith_append_ok (word_run _ w hw 0 [[]]), feedAllWith_one, feedWith_retry h1, h2]
+
+/-- `r` is the lexical error -/
+def rejected (r : Except Err (List Tok)) : Bool := match r with | .error .lexical => true | _ => false
+
+example : rejected (lex Gen.cfgS "(a".toList) = true ∧ rejected (lex Gen.cfgS "a)".toList) = true ∧
+    (lex Gen.cfgS "(a)".toList).isOk = true := by decide +kernel
+
 end C05
